@@ -22,16 +22,23 @@ package main
 
 import (
 	"bytes"
+	"context"
+	"errors"
 	"fmt"
 	stdhtml "html"
 	"io"
 	"log/slog"
+	"net/http"
+	"net/http/httptest"
 	"net/url"
+	"sort"
 	"strings"
+	"time"
 
 	"github.com/gnolang/gno/gno.land/pkg/gnoweb"
 	md "github.com/gnolang/gno/gno.land/pkg/gnoweb/markdown"
 	"github.com/gnolang/gno/gno.land/pkg/gnoweb/weburl"
+	"github.com/gnolang/gno/gnovm/pkg/doc"
 	"github.com/yuin/goldmark"
 	"github.com/yuin/goldmark/ast"
 	ghtml "github.com/yuin/goldmark/renderer/html"
@@ -99,6 +106,164 @@ func renderLink(ty int, untrusted, help bool, dest, title []byte) []byte {
 		panic(err)
 	}
 	return buf.Bytes()
+}
+
+// ------------------------------------------------------------------ the served page (real HTTP handler)
+
+// realmClient is a gnoweb.ClientAdapter whose only realm renders the document under test.
+type realmClient struct{ body []byte }
+
+var errNope = errors.New("not available in the harness")
+
+func (c *realmClient) Realm(ctx context.Context, path, args string) ([]byte, error) {
+	if path != "/r/demo/foo" {
+		return nil, gnoweb.ErrClientPackageNotFound
+	}
+	return c.body, nil
+}
+func (c *realmClient) File(ctx context.Context, path, filename string, height int64) ([]byte, gnoweb.FileMeta, error) {
+	return nil, gnoweb.FileMeta{}, gnoweb.ErrClientPackageNotFound
+}
+func (c *realmClient) ListFiles(ctx context.Context, path string, height int64) ([]string, error) {
+	return nil, gnoweb.ErrClientPackageNotFound
+}
+func (c *realmClient) ListPaths(ctx context.Context, prefix string, limit int) ([]string, error) {
+	return nil, nil
+}
+func (c *realmClient) Doc(ctx context.Context, path string, height int64) (*doc.JSONDocumentation, error) {
+	return nil, errNope
+}
+func (c *realmClient) StatePkg(ctx context.Context, path string, height int64) ([]byte, error) {
+	return nil, errNope
+}
+func (c *realmClient) StateObject(ctx context.Context, oid string, height int64) ([]byte, error) {
+	return nil, errNope
+}
+func (c *realmClient) StateType(ctx context.Context, typeId string, height int64) ([]byte, error) {
+	return nil, errNope
+}
+
+var (
+	pageClient  *realmClient
+	pageHandler http.Handler
+)
+
+// servePage returns status and body of GET /r/demo/foo with the realm rendering `src`,
+// through the real gnoweb.HTTPHandler built around the default renderer.
+func servePage(src []byte) (int, []byte) {
+	setup()
+	if pageHandler == nil {
+		logger := slog.New(slog.NewTextHandler(io.Discard, nil))
+		pageClient = &realmClient{}
+		h, err := gnoweb.NewHTTPHandler(logger, &gnoweb.HTTPHandlerConfig{
+			ClientAdapter: pageClient,
+			Renderer:      renderer,
+			Aliases:       map[string]gnoweb.AliasTarget{},
+			Timeout:       time.Minute,
+			Meta: gnoweb.StaticMetadata{Domain: "gno.land", AssetsPath: "/public/", ChromaPath: "/public/_chroma/style.css",
+				RemoteHelp: "127.0.0.1:26657", ChainId: "dev", BuildTime: "0"},
+		})
+		if err != nil {
+			panic(err)
+		}
+		pageHandler = h
+	}
+	pageClient.body = src
+	rec := httptest.NewRecorder()
+	req := httptest.NewRequest(http.MethodGet, "/r/demo/foo", nil)
+	pageHandler.ServeHTTP(rec, req)
+	return rec.Code, rec.Body.Bytes()
+}
+
+// inventory lists what the property forbids, as found in one page: script-like elements,
+// event-handler attributes, script-capable URL attributes, and the element names used.
+func inventory(page []byte) (danger []string, tags map[string]bool) {
+	tags = map[string]bool{}
+	z := xhtml.NewTokenizer(bytes.NewReader(page))
+	for {
+		tt := z.Next()
+		if tt == xhtml.ErrorToken {
+			break
+		}
+		if tt != xhtml.StartTagToken && tt != xhtml.SelfClosingTagToken {
+			continue
+		}
+		tok := z.Token()
+		tags[tok.Data] = true
+		if forbiddenTags[tok.Data] {
+			danger = append(danger, "element:"+tok.Data)
+		}
+		for _, at := range tok.Attr {
+			if len(at.Key) > 2 && strings.HasPrefix(at.Key, "on") {
+				danger = append(danger, "event:"+tok.Data+"."+at.Key)
+			}
+			if urlAttrs[at.Key] && scriptCapableURL(at.Val) {
+				danger = append(danger, "url:"+tok.Data+"."+at.Key+"="+shortStr(at.Val))
+			}
+			if at.Key == "data-cnry" {
+				danger = append(danger, "canary:"+tok.Data)
+			}
+		}
+	}
+	sort.Strings(danger)
+	return danger, tags
+}
+
+var (
+	baseDanger []string
+	baseTags   map[string]bool
+)
+
+// pageOracle: the page served for `src` must forbid-wise look like the page served for an
+// empty realm (gnoweb's own layout has its own <script>/<link>/<meta>: those are the baseline).
+func pageOracle(src []byte) (string, string) {
+	if baseTags == nil {
+		_, b := servePage([]byte("hello"))
+		baseDanger, baseTags = inventory(b)
+	}
+	code, page := servePage(src)
+	danger, tags := inventory(page)
+	impl := fmt.Sprintf("status=%d", code)
+	// multiset difference danger − baseline
+	count := map[string]int{}
+	for _, d := range baseDanger {
+		count[d]--
+	}
+	for _, d := range danger {
+		count[d]++
+	}
+	keys := []string{}
+	for k, v := range count {
+		if v > 0 {
+			keys = append(keys, k)
+		}
+	}
+	sort.Strings(keys)
+	if len(keys) > 0 {
+		k := keys[0]
+		switch {
+		case strings.HasPrefix(k, "element:"):
+			return impl, "VIOL:script-element served page gains " + k
+		case strings.HasPrefix(k, "event:"):
+			return impl, "VIOL:event-attr served page gains " + k
+		case strings.HasPrefix(k, "canary:"):
+			return impl, "VIOL:raw-html served page gains " + k
+		default:
+			return impl, "VIOL:script-url served page gains " + k
+		}
+	}
+	low := bytes.ToLower(src)
+	names := []string{}
+	for tname := range tags {
+		if !baseTags[tname] && !knownTags[tname] && bytes.Contains(low, []byte("<"+tname)) {
+			names = append(names, tname)
+		}
+	}
+	sort.Strings(names)
+	if len(names) > 0 {
+		return impl, "VIOL:raw-html served page has element <" + names[0] + "> copied from the document"
+	}
+	return impl, "ok"
 }
 
 // ------------------------------------------------------------------ output shortening (same as the Lean driver)
@@ -464,6 +629,12 @@ func exec(t []string) (string, string) {
 			return "err:badop", "-"
 		}
 		return short([]byte(stdhtml.UnescapeString(string(b)))), "-"
+	case "page":
+		m, ok := arg(1)
+		if !ok || len(t) != 2 {
+			return "err:badop", "-"
+		}
+		return pageOracle(m)
 	case "md", "doc":
 		m, ok := arg(1)
 		if !ok || len(t) != 3 {
